@@ -27,6 +27,69 @@ CHECKS = {
    note="Exact poll counts are not asserted; only the lattice lengths are instantiated."),
 }
 
+CHECKS.update({
+ "C01": dict(engine="E2", cat="exploration", ref="DESIGN.md 5/C01",
+   technique="generated programs + differential oracle: size/align/offset/address facts of GenericArray<T,N> against the native [T;N] under the same compiler, complete table + random type/length grammar",
+   text="16k rows: every N in 0..=1024 x 14 element layouts and the 123 typenum constants above 1024 enumerated completely, ConstDefault-built arrays, plus random element types (grammar incl. packed/aligned structs and nested GenericArrays) x random binary digit strings to depth 62; size_of, align_of, struct-field offset, slice extent, element addresses and three value read paths compared with [T;N].",
+   note="Facts are those of this rustc on x86_64; the random part is a sample of the type/length space."),
+ "C02": dict(engine="E1", cat="exploration", ref="DESIGN.md 5/C02",
+   technique="property testing over a complete grid (lattice length x view x source length class x form) with seeded values; oracle = pointer identity, length, write-through and Ok/Err/panic as a function of (L, N)",
+   text="21k cases: 14 shared/mutable views checked for address, length and order with a write through each mutable view read back through all others; six reinterpretation forms against slices with L<N, L=N, L>N for 34 lengths and 5 element kinds (incl. zero-sized and drop-tracked); by-value array and all 12 tuple arities.",
+   note="A wrongly accepted reference is never dereferenced, only its address is inspected."),
+ "C08": dict(engine="E1", cat="exploration", ref="DESIGN.md 5/C08",
+   technique="property testing with a stateful, non-commutative recording closure over a complete grid of (operation form, length, element kind) with seeded values; oracle = exact call log + slice reference computation",
+   text="16k cases over 26 operation forms (generate x4, map x4, zip x10, fold x4, Clone x2, Default x2) x 16 lengths x 5 element kinds selecting every needs_drop branch, each compared with the expected call log 0..N-1 and with the same computation on slices.",
+   note="Only the listed lengths are instantiated."),
+ "C09": dict(engine="E1", cat="exploration", ref="DESIGN.md 5/C09",
+   technique="differential property testing against Vec over an exhaustive type-level grid of (N,K)/(N,M)/index instances with seeded values, plus pointer-offset oracle for by-reference split",
+   text="29k cases: every N<=12 with every K (split owned/&/&mut), every (N,M) with N+M<=12 (concat), boundary pairs to 1024, lengthen/shorten on 25 lengths, remove/swap_remove with every index 0..=N+1 and usize::MAX, six element kinds of size 0/1/8/24 incl. drop-tracked; results compared with the Vec operations by value and identity.",
+   note="A discarded one-past read is invisible natively (thorough tier: Miri/ASan)."),
+ "C10": dict(engine="E1+E2", cat="exploration", ref="DESIGN.md 5/C10",
+   technique="property testing over a complete (N, L) grid with std chunks_exact as reference (addresses, counts, write-through), plus generated const items evaluated by the compiler's const evaluator",
+   text="12k run-time cases (every L in 0..=4N+3 for 15 N up to 64, boundary L to 1024, five element kinds, shared and mutable) compared with chunks_exact/remainder by address and content, inverse and native-chunk views; plus ~2k const items over the same grid where an out-of-bounds slice is a hard compiler error.",
+   note="Only addresses and lengths are inspected before results are known to be in bounds."),
+ "C11": dict(engine="E1", cat="exploration", ref="DESIGN.md 5/C11",
+   technique="property testing over an exhaustive (N, M) grid with seeded values; oracle = row-major index relation, round trip, pointer identity and write-through",
+   text="9.6k cases: all (N,M) in 0..=6^2 plus 11 boundary pairs up to 1024, owned/&/&mut forms of flatten and unflatten, five element kinds incl. drop-tracked and zero-sized; flat[i*N+j]==nested[i][j] by value and identity, inverse law, same address and extent, write-through.",
+   note="Unflatten only over evenly divisible lengths."),
+ "C12": dict(engine="E2", cat="exploration", ref="DESIGN.md 5/C12",
+   technique="generated programs in accept/reject twins (one length, type name or lifetime apart) compiled against the crate; oracle = predicted verdict vs rustc's type/trait/borrow checker",
+   text="532 programs (quick) from 205 templates: every public operation relating two lengths, Send/Sync/Copy/Clone for array, iterator and Box over ten element types, and widening / escape / aliasing / freeze probes for 41 reference-returning APIs. Reject programs must fail with a length, bound or borrow error; accept twins prove the templates are well formed.",
+   note="Templates are hand-written: a loosened bound no template probes is not found."),
+ "C13": dict(engine="E1", cat="exploration", ref="DESIGN.md 5/C13",
+   technique="property testing: exhaustive pairs over small alphabets + proptest pairs sharing a prefix; differential oracle = the slices of the same elements, a call-recording Hasher and map lookups through Borrow",
+   text="47k pairs: all pairs over {0,1,2} for N<=4 and over {NaN,-0.0,0.0,1.0,inf} for N<=3, plus random prefix-sharing pairs for 34 lengths and 5 element types; ==,<,partial_cmp,cmp, the exact write_* call sequence fed to a hasher, 15 Debug format specs and HashMap/BTreeMap lookups by &[T] compared with the slice.",
+   note="Hash agreement is checked as call sequences, which is stronger than equal hash values."),
+ "C14": dict(engine="E1", cat="exploration", ref="DESIGN.md 5/C14",
+   technique="property testing over a complete (N, precision, case, pattern) grid plus proptest-random data, run under both feature configurations; oracle = per-byte {:02x} reference string truncated to min(p, 2N)",
+   text="2 x 39k cases: every precision 0..=2N+2 for N<=33, boundary precisions around 2048/4096/2N for N up to 4096, four structured byte patterns plus random data, both cases; the check binary is built with and without faster-hex and both must equal the reference.",
+   note="faster-hex picks its SIMD path by run-time CPU detection; other paths are not exercised."),
+ "C15": dict(engine="E1", cat="exploration", ref="DESIGN.md 5/C15",
+   technique="property testing over a grid of (conversion, N, source length, spare capacity, element kind) with a recording global allocator for block identity and small-stack child processes for multi-MiB constructions",
+   text="7k cases: 14 conversions x 15 lengths (to 65536) x source lengths {0,N-1,N,N+1} x spare capacity; contents and identities vs the source, Ok iff length N, rejected sources dropped, O(1) conversions keep the block (pointer + allocator log), and five boxed constructors build 4/16 MiB arrays on a 256 KiB stack.",
+   note="A stack round trip the optimiser removes entirely would not be seen (children built at opt-level 1)."),
+ "C16": dict(engine="E1", cat="fault_enumeration", ref="DESIGN.md 5/C16",
+   technique="recording global allocator + enumerated fault injection: a panic at every caller-code invocation (in-process) and an allocation failure at every allocation (child process) for each alloc-feature operation instance",
+   text="2.6k operation instances (18 operations x 9 lengths x 6 element kinds incl. zero-sized-by-length and 32-byte aligned), each run clean, with a panic at every callback index and with the k-th allocation failing for every k; no zero-size request, matching dealloc/realloc layouts, no double free, nothing live at the end, standard allocation-error abort.",
+   note="Allocation failure is injected for N<=8 in the quick tier; the allocator wrapper is per-thread."),
+ "C17": dict(engine="E1", cat="exploration", ref="DESIGN.md 5/C17",
+   technique="property testing with a recording Serializer, three real formats and a scripted Deserializer over a complete grid of (N, delivered count, up-front hint, later hints, element-error index); oracle computed from the script + drop registry",
+   text="18k cases: serialize_tuple(N)/N elements/end, bincode = concatenated element encodings (and native tuples), JSON = list; round trips in JSON text, Value and bincode; rejection of every wrong count via JSON, truncated bincode and the scripted source with every hint/error combination; on rejection every element read is dropped.",
+   note="A source reporting 'nothing left' while holding elements is outside the claim and not generated."),
+ "C18": dict(engine="E2", cat="exploration", ref="DESIGN.md 5/C18",
+   technique="generated const items: the compiler's const evaluator as UB oracle, python-computed expected checksums asserted inside the items, run-time re-evaluation of the same const fn, and separately compiled must-reject items",
+   text="2.8k const items: 17 templates covering every const fn x 14 lengths x slice lengths 0..=3N+2 x 4 element types x shared/mutable with writes through results; each value asserted against a natively computed checksum at compile time and compared with the run-time evaluation; 140 reject items must fail with E0080.",
+   note="The const evaluator checks only the instantiations the generated items contain."),
+ "C19": dict(engine="E1+E2", cat="exploration", ref="DESIGN.md 5/C19",
+   technique="property testing over every storage shape N in 0..=64 (+8 boundary lengths) x 7 element types with seeded prior contents; oracle = per-element comparison with the zeroized value / T::DEFAULT, at run time and in generated const items",
+   text="6.6k run-time cases and 438 const items: zeroize() leaves every element at its zeroized value (incl. types whose zeroized value is not all-zero bytes), const_default()/DEFAULT have every element equal to T::DEFAULT for types whose default is distinguishable from zero, equal Default::default(), at compile time and run time.",
+   note="An odd node using one child twice is indistinguishable by value (harmless by construction)."),
+ "C20": dict(engine="E2", cat="exploration", ref="DESIGN.md 5/C20",
+   technique="generated macro invocations with logging element expressions; oracle = native array literal, explicit type annotation and evaluation log",
+   text="208 generated invocation groups: list form for every count 0..=64,100,128,255,256 (trailing comma variants, String elements, const position), both repeat forms over 20 lengths in const and let position with pure/logging/impure expressions, and box_arr! with the same arguments.",
+   note="Only the documented syntactic forms are generated."),
+})
+
 def main():
     props = [json.loads(l) for l in open(os.path.join(ROOT, "properties.jsonl"))]
     checks = []
